@@ -556,10 +556,21 @@ func (a *Adversary) twistedNV(h uint64) bool {
 			best, lockHash, lockBlk = int64(m.Vote.Proof.PPRef.V), m.Vote.Proof.PPRef.Hash, m.Block
 		}
 	}
-	E := a.newBlock(h, false)
+	E := a.newBlock(h, a.r.Intn(3) == 0)
 	var m *interfaces.ConsensusRawMessage
-	variant := a.r.Intn(6)
+	variant := a.r.Intn(7)
 	switch {
+	case variant == 6: // the leader's own vote carries a spliced proof for its block: PREPREPARE ref (own signature, an earlier view it led) over genuine PREPAREs for another hash
+		sp := a.splicedProof(h, v, E)
+		if sp == nil {
+			return false
+		}
+		for i, vt := range votes {
+			if vt.Sender.Id == leader {
+				votes[i] = a.mkVote(leader, uint64(spi.InstanceId), h, v, sp)
+			}
+		}
+		m = a.mkNV(leader, h, v, votes, spi.HashOf(E), E, v)
 	case variant == 0 && lockHash != nil: // embedded proposal hash of another block, attached block = locked block
 		m = a.mkNV(leader, h, v, votes, spi.HashOf(E), lockBlk, v)
 	case variant == 1 && lockHash != nil: // fresh block despite the lock
@@ -748,7 +759,7 @@ func (a *Adversary) garbage(h uint64) bool {
 		content = make([]byte, a.r.Intn(200))
 		a.r.Read(content)
 	}
-	from := "x00"
+	from := "ndx0"
 	if len(a.byz) > 0 {
 		from = a.byz[0]
 	}
